@@ -182,6 +182,28 @@ CLAIMED["C04"] = dict(
     technique="Lean 4 proof (encoder model read back by an independent vendor-document reader; frame layout and CRC) + API model theorems + exhaustive-grid judgement of the real API's frames by the vendor reader",
     note=CODEC_NOTE + "Quick-timer and AC-timer control messages are not in the vendor documents: only their addressing, length and check bytes are judged. The AirTouch 5 outer 10-byte header is undocumented (reverse-engineered upstream): judged for consistency with the inner frame only.")
 
+API_NOTE = ("API layer: the enum tables, constants and timeouts of at4/api.py, at5/api.py and api.py are regenerated from the source on every run "
+            "(Gen/ApiEnums, Gen/Api4, Gen/Api5); the hand-written state-machine models Model/Api4.lean and Model/Api5.lean (object heap, dictionaries "
+            "in Python insertion order, embedded heartbeat model) are tied to the real AirTouch4 / AirTouch5 objects by an op-for-op differential over a "
+            "stub socket on a virtual clock (thousands of generated scripts: handshakes with noise, silence, re-init, calls, subscribers, polls). Message "
+            "handlers are atomic in the model: interleavings of a suspended handler with other API calls are explored on the real object only (full-stack "
+            "harness). Ticks in which two timers are due together are set aside (CPython orders them by heap position). ")
+
+CLAIMED["C11"] = dict(
+    text="Theorems in Props/C11At4.lean and Props/C11At5.lean over the API models, for every state and every argument: a power control, mode, fan speed "
+         "or zone power state that is not advertised, a damper outside 0..100 or a set-point for a zone without sensor gives ValueError and no send "
+         "(one theorem per case); every other call sends exactly one message (call_one_send_or_raise / C11_*_call_one_send_at5) whose content is the "
+         "requested attribute with every other field unchanged (exact-send theorems per call), set-points rounded to the resolution (AT4 nearest "
+         "integer ties-to-even, AT5 nearest tenth of the double passed in) and, for air-conditioners, clamped into the current [min, max]; setting or "
+         "clearing one quick timer re-sends the other exactly as last reported. Direct judgement of the REAL objects, independent of the model: "
+         "installations sweeping all 2^5 mode masks and all 2^7 / 2^8 fan masks (thorough: every pair), zones with/without sensor and turbo, all "
+         "reported timer states; every call x every enum argument x a fine temperature grid with ties and out-of-range values x dampers -5..105; "
+         "refusal exactly when the vendor reading of the ability / status records says so, and each accepted call's frame read by the vendor reader "
+         "(meaning as in C04).",
+    design_ref="DESIGN.md section 7, C11 and section 12.4",
+    technique="Lean 4 proof (API state-machine model: refusal / single send / exact content for all states and arguments) + op-for-op differential of the model against the real objects + independent judgement of the real objects by vendor-reader oracle",
+    note=API_NOTE + CODEC_NOTE + "Zone set-points the wire format cannot express (AT5 below 10.0 / above 35.0 degC) are outside the admissible arguments: accepted by the API, then unencodable or read as keep; counted, not judged.")
+
 NOT_YET = {
 }
 
